@@ -181,8 +181,14 @@ def edaBoxed (e : A.Tree Nat) : String :=
   let back := A.collapse A.boxAlg arena
   let backS := match back with | some b => b.toStr sh | none => "panic"
   let backV := match back with | some b => showOptNat (b.value z7neg z7mul z7add) | none => "panic"
+  -- evaluation over the free term algebra (digest of the term)
+  let evS := match A.collapse (A.evalAlg (fun x => "-(" ++ x ++ ")") (fun a b => "(" ++ a ++ "*" ++ b ++ ")")
+      (fun a b => "(" ++ a ++ "+" ++ b ++ ")")) (arena.map (fun L => match L with
+      | .term t => A.Layer.term (toString t) | .not a => .not a | .and a b => .and a b | .or a b => .or a b
+      | .xor a b => .xor a b | .ite a b c => .ite a b c)) with
+    | some (some x) => toString (fnv1a x).toNat | _ => "panic"
   e.toStr sh ++ " | " ++ A.arenaDebug sh arena ++ " | " ++ ts ++ " | " ++ ev ++ " | " ++ direct ++
-    " | " ++ backS ++ " | " ++ backV
+    " | " ++ backS ++ " | " ++ backV ++ " | " ++ evS
 
 def edaSignal (raw : Nat) : String :=
   let s : BitVec 32 := BitVec.ofNat 32 raw
